@@ -4,4 +4,3 @@ CONSTANTS Devs = {}
           Family = "MQuick"
 INVARIANTS TypeOK VisitedSafe VisitedExact DepthShortest FetchedExact LocalExact HandlerCidRight
            HandlerCallsRight ProvidedExact ResultRight NoHandlerCrash
-PROPERTY Termination
